@@ -157,6 +157,278 @@ def outputsR (wf : Wf) (cfg : RCfg) (rst : RSt) (n : NodeId) : List Val :=
   (rst.st.ns.get n).cks.map (diskWf wf cfg rst.ended).body
 
 /-- bodies executing now -/
-def executing (rst : RSt) : List Ck := rst.began.filter (fun c => !rst.ended.contains c)
+def executingR (rst : RSt) : List Ck := rst.began.filter (fun c => !rst.ended.contains c)
+
+/-! ### the futures bookkeeping of the loop does not depend on the disk -/
+
+structure FInv (k : Option Nat) (st : St) : Prop where
+  futuredNodup : st.futured.Nodup
+  futuresNodup : st.futures.Nodup
+  futuresSub : ∀ c, c ∈ st.futures → c ∈ st.futured
+  limit : ∀ k', k = some k' → st.futures.length ≤ k'
+
+theorem finv_congr {k : Option Nat} {st st' : St} (h : FInv k st) (h1 : st'.futures = st.futures)
+    (h2 : st'.futured = st.futured) : FInv k st' :=
+  ⟨by rw [h2]; exact h.futuredNodup, by rw [h1]; exact h.futuresNodup, by rw [h1, h2]; exact h.futuresSub,
+   by rw [h1]; exact h.limit⟩
+
+/-- what the loop's own steps leave alone, and how `futured` grows -/
+structure Kept (st st' : St) : Prop where
+  w : st'.w = st.w
+  errors : st'.errors = st.errors
+  futuredGrows : ∀ c, c ∈ st.futured → c ∈ st'.futured
+  futuresGrows : ∀ c, c ∈ st.futures → c ∈ st'.futures
+
+theorem Kept.refl (st : St) : Kept st st := ⟨rfl, rfl, fun _ h => h, fun _ h => h⟩
+
+theorem Kept.trans {a b c : St} (h1 : Kept a b) (h2 : Kept b c) : Kept a c :=
+  ⟨h2.w.trans h1.w, h2.errors.trans h1.errors, fun x h => h2.futuredGrows x (h1.futuredGrows x h),
+   fun x h => h2.futuresGrows x (h1.futuresGrows x h)⟩
+
+theorem finv_dispatchStep {k : Option Nat} {st : St} (hs : FInv k st) (j : Job) :
+    FInv k (dispatchStep k st j) ∧ Kept st (dispatchStep k st j) := by
+  unfold dispatchStep
+  simp only
+  split
+  · rename_i hc
+    simp only [Bool.and_eq_true, Bool.not_eq_true', List.contains_eq_mem, decide_eq_false_iff_not] at hc
+    obtain ⟨hnf, hlim⟩ := hc
+    have hnf' : ckOf st j ∉ st.futures := fun h => hnf (hs.futuresSub _ h)
+    refine ⟨⟨?_, ?_, ?_, ?_⟩, ⟨rfl, rfl, fun c h => List.mem_append_left _ h, fun c h => List.mem_append_left _ h⟩⟩
+    · exact List.nodup_append.mpr ⟨hs.futuredNodup, by simp, by
+        intro a ha b hb; simp at hb; subst hb; intro e; subst e; exact hnf ha⟩
+    · exact List.nodup_append.mpr ⟨hs.futuresNodup, by simp, by
+        intro a ha b hb; simp at hb; subst hb; intro e; subst e; exact hnf' ha⟩
+    · intro c hc
+      rcases List.mem_append.mp hc with h | h
+      · exact List.mem_append_left _ (hs.futuresSub c h)
+      · exact List.mem_append_right _ h
+    · intro k' hk
+      subst hk
+      simp only [underLimit, decide_eq_true_eq] at hlim
+      simp only [List.length_append, List.length_singleton]
+      omega
+  · exact ⟨hs, Kept.refl st⟩
+
+theorem finv_foldl_dispatch {k : Option Nat} : ∀ (l : List Job) {st : St}, FInv k st →
+    FInv k (l.foldl (dispatchStep k) st) ∧ Kept st (l.foldl (dispatchStep k) st)
+  | [], st, hs => ⟨hs, Kept.refl st⟩
+  | j :: l, st, hs => by
+    simp only [List.foldl_cons]
+    have h1 := finv_dispatchStep hs j
+    have h2 := finv_foldl_dispatch l h1.1
+    exact ⟨h2.1, h1.2.trans h2.2⟩
+
+theorem finv_dispatch {k : Option Nat} {st : St} (hs : FInv k st) : FInv k (dispatch k st) ∧ Kept st (dispatch k st) :=
+  finv_foldl_dispatch st.tasks hs
+
+/-- a step that changes tables and tasks only -/
+def SameQ (st st' : St) : Prop :=
+  st'.w = st.w ∧ st'.errors = st.errors ∧ st'.futured = st.futured ∧ st'.futures = st.futures
+
+theorem SameQ.kept {st st' : St} (h : SameQ st st') : Kept st st' :=
+  ⟨h.1, h.2.1, fun c hc => by rw [h.2.2.1]; exact hc, fun c hc => by rw [h.2.2.2]; exact hc⟩
+
+theorem SameQ.finv {k : Option Nat} {st st' : St} (h : SameQ st st') (hs : FInv k st) : FInv k st' :=
+  finv_congr hs h.2.2.2 h.2.2.1
+
+theorem SameQ.trans {a b c : St} (h1 : SameQ a b) (h2 : SameQ b c) : SameQ a c :=
+  ⟨h2.1.trans h1.1, h2.2.1.trans h1.2.1, h2.2.2.1.trans h1.2.2.1, h2.2.2.2.trans h1.2.2.2⟩
+
+theorem sameQ_doPoll (wf : Wf) (k : Option Nat) (sorted : List NodeId) (st : St) : SameQ st (doPoll wf k sorted st) :=
+  ⟨rfl, rfl, rfl, rfl⟩
+
+theorem sameQ_stallLoop {wf : Wf} {k : Option Nat} {sorted : List NodeId} :
+    ∀ (fuel : Nat) {st st' : St}, stallLoop wf k sorted fuel st = some st' → SameQ st st'
+  | 0, _, _, h => by simp [stallLoop] at h
+  | fuel + 1, st, st', h => by
+    simp only [stallLoop] at h
+    split at h
+    · cases h; exact ⟨rfl, rfl, rfl, rfl⟩
+    · split at h
+      · cases h; exact ⟨rfl, rfl, rfl, rfl⟩
+      · split at h
+        · exact absurd h (by simp)
+        · have q := sameQ_stallLoop fuel h
+          exact ⟨q.1, q.2.1, q.2.2.1, q.2.2.2⟩
+
+theorem finv_afterPoll {wf : Wf} {k : Option Nat} {sorted : List NodeId} {st : St}
+    (hs : FInv k st) {st' : St} (h : (afterPoll wf k sorted st).state? = some st') : FInv k st' ∧ Kept st st' := by
+  unfold afterPoll at h
+  split at h
+  · simp only [Step.state?, Option.some.injEq] at h; subst h; exact finv_dispatch hs
+  · simp only at h
+    split at h
+    · simp only [Step.state?, Option.some.injEq] at h; subst h
+      exact ⟨finv_congr hs rfl rfl, ⟨rfl, rfl, fun _ h => h, fun _ h => h⟩⟩
+    · split at h
+      · simp only [Step.state?, Option.some.injEq] at h; subst h
+        exact ⟨finv_congr hs rfl rfl, ⟨rfl, rfl, fun _ h => h, fun _ h => h⟩⟩
+      · rename_i st2 hst
+        simp only [Step.state?, Option.some.injEq] at h; subst h
+        have q := sameQ_stallLoop 11 hst
+        have q0 : SameQ st { st with ns := (anyNotDone st.w st.ns wf.g.nodes).2 } := ⟨rfl, rfl, rfl, rfl⟩
+        have q2 := q0.trans q
+        have d := finv_dispatch (q2.finv hs)
+        exact ⟨d.1, q2.kept.trans d.2⟩
+
+/-! ### C16 over pre-existing results -/
+
+/-- bodies execute only inside pending futures -/
+structure RInv (k : Option Nat) (rst : RSt) : Prop where
+  f : FInv k rst.st
+  beganNodup : rst.began.Nodup
+  endedSub : ∀ c, c ∈ rst.ended → c ∈ rst.began
+  beganSub : ∀ c, c ∈ rst.began → c ∈ rst.st.futured
+  execPending : ∀ c, c ∈ rst.began → c ∉ rst.ended → c ∈ rst.st.futures
+
+theorem rinv_init (k : Option Nat) (w0 : World) : RInv k (RSt.init w0) := by
+  refine ⟨⟨?_, ?_, ?_, ?_⟩, ?_, ?_, ?_, ?_⟩ <;> simp [RSt.init, St.init]
+
+theorem rinv_applyEvR {cfg : RCfg} {k : Option Nat} {rst rst' : RSt} {e : Ev} (hi : RInv k rst)
+    (h : applyEvR cfg rst e = some rst') : RInv k rst' := by
+  cases e with
+  | acquire c =>
+    simp only [applyEvR] at h
+    split at h
+    · rename_i hc
+      simp only [Bool.and_eq_true, Bool.not_eq_true', List.contains_eq_mem, decide_eq_true_eq,
+        decide_eq_false_iff_not] at hc
+      obtain ⟨⟨hf, hnb⟩, _⟩ := hc
+      cases h
+      refine ⟨finv_congr hi.f rfl rfl, ?_, ?_, ?_, ?_⟩
+      · exact List.nodup_append.mpr ⟨hi.beganNodup, by simp, by
+          intro a ha b hb; simp at hb; subst hb; intro e; subst e; exact hnb ha⟩
+      · intro x hx; exact List.mem_append_left _ (hi.endedSub x hx)
+      · intro x hx
+        rcases List.mem_append.mp hx with h | h
+        · exact hi.beganSub x h
+        · simp at h; subst h; exact hi.f.futuresSub _ hf
+      · intro x hx hne
+        rcases List.mem_append.mp hx with h | h
+        · exact hi.execPending x h hne
+        · simp at h; subst h; exact hf
+    · exact absurd h (by simp)
+  | finishOk c =>
+    simp only [applyEvR] at h
+    split at h
+    · rename_i hc
+      simp only [Bool.and_eq_true, Bool.not_eq_true', List.contains_eq_mem, decide_eq_true_eq,
+        decide_eq_false_iff_not] at hc
+      cases h
+      refine ⟨finv_congr hi.f rfl rfl, hi.beganNodup, ?_, hi.beganSub, ?_⟩
+      · intro x hx
+        rcases List.mem_append.mp hx with h | h
+        · exact hi.endedSub x h
+        · simp at h; subst h; exact hc.1
+      · intro x hx hne
+        exact hi.execPending x hx (fun h => hne (List.mem_append_left _ h))
+    · exact absurd h (by simp)
+  | finishErr c =>
+    simp only [applyEvR] at h
+    split at h
+    · rename_i hc
+      simp only [Bool.and_eq_true, Bool.not_eq_true', List.contains_eq_mem, decide_eq_true_eq,
+        decide_eq_false_iff_not] at hc
+      cases h
+      refine ⟨finv_congr hi.f rfl rfl, hi.beganNodup, ?_, hi.beganSub, ?_⟩
+      · intro x hx
+        rcases List.mem_append.mp hx with h | h
+        · exact hi.endedSub x h
+        · simp at h; subst h; exact hc.1
+      · intro x hx hne
+        exact hi.execPending x hx (fun h => hne (List.mem_append_left _ h))
+    · exact absurd h (by simp)
+  | complete c =>
+    simp only [applyEvR] at h
+    split at h
+    · rename_i hc
+      simp only [Bool.and_eq_true, Bool.or_eq_true, List.contains_eq_mem, decide_eq_true_eq] at hc
+      obtain ⟨_, hdone⟩ := hc
+      cases h
+      refine ⟨⟨hi.f.futuredNodup, hi.f.futuresNodup.erase c,
+        fun x hx => hi.f.futuresSub x (List.mem_of_mem_erase hx), ?_⟩, hi.beganNodup, hi.endedSub, hi.beganSub, ?_⟩
+      · intro k' hk
+        exact Nat.le_trans (List.length_erase_le) (hi.f.limit k' hk)
+      · intro x hx hne
+        have hp := hi.execPending x hx hne
+        by_cases hxc : x = c
+        · subst hxc
+          rcases hdone with h | h
+          · exact absurd h hne
+          · simp only [isHit, Bool.and_eq_true, Bool.not_eq_true', List.contains_eq_mem, decide_eq_false_iff_not] at h
+            exact absurd hx h.2
+        · exact (List.mem_erase_of_ne hxc).mpr hp
+    · exact absurd h (by simp)
+  | vanish c => simp [applyEvR] at h
+
+theorem rinv_applyEvsR {cfg : RCfg} {k : Option Nat} : ∀ (es : List Ev) {rst rst' : RSt}, RInv k rst →
+    applyEvsR cfg rst es = some rst' → RInv k rst'
+  | [], _, _, hi, h => by simp only [applyEvsR, Option.some.injEq] at h; subst h; exact hi
+  | e :: es, rst, rst', hi, h => by
+    simp only [applyEvsR] at h
+    split at h
+    · rename_i r1 h1; exact rinv_applyEvsR es (rinv_applyEvR hi h1) h
+    · exact absurd h (by simp)
+
+theorem rinv_back {k : Option Nat} {rst : RSt} (hi : RInv k rst) {st' : St} (hf : FInv k st')
+    (hk : ∀ c, c ∈ rst.st.futured → c ∈ st'.futured) (hk2 : ∀ c, c ∈ rst.st.futures → c ∈ st'.futures) :
+    RInv k (back rst st') :=
+  ⟨finv_congr hf rfl rfl, hi.beganNodup, hi.endedSub, fun c hc => hk c (hi.beganSub c hc),
+   fun c hc hne => hk2 c (hi.execPending c hc hne)⟩
+
+theorem rinv_pollStepR {wf : Wf} {k : Option Nat} {sorted : List NodeId} {cfg : RCfg} {rst : RSt} (hi : RInv k rst)
+    {rst' : RSt} (h : (pollStepR wf k sorted cfg rst).state? = some rst') : RInv k rst' := by
+  unfold pollStepR at h
+  simp only at h
+  have key : ∀ st', (afterPoll (diskWf wf cfg rst.ended) k sorted
+      (doPoll (diskWf wf cfg rst.ended) k sorted (seen cfg rst))).state? = some st' → RInv k (back rst st') := by
+    intro st' hst
+    have hf0 : FInv k (doPoll (diskWf wf cfg rst.ended) k sorted (seen cfg rst)) := finv_congr hi.f rfl rfl
+    obtain ⟨hf, hk⟩ := finv_afterPoll hf0 hst
+    exact rinv_back hi hf hk.futuredGrows hk.futuresGrows
+  split at h
+  · rename_i st' hst
+    simp only [RStep.state?, Option.some.injEq] at h; subst h
+    exact key st' (by rw [hst]; rfl)
+  · rename_i o st' hst
+    simp only [RStep.state?, Option.some.injEq] at h; subst h
+    exact key st' (by rw [hst]; rfl)
+  · simp [RStep.state?] at h
+
+theorem rinv_roundR {wf : Wf} {k : Option Nat} {sorted : List NodeId} {cfg : RCfg} {rst : RSt} (hi : RInv k rst)
+    (moves : List Ev) {rst' : RSt} (h : (roundR wf k sorted cfg rst moves).state? = some rst') : RInv k rst' := by
+  unfold roundR at h
+  split at h
+  · simp [RStep.state?] at h
+  · split at h
+    · simp [RStep.state?] at h
+    · rename_i r1 h1
+      split at h
+      · simp [RStep.state?] at h
+      · exact rinv_pollStepR (rinv_applyEvsR moves hi h1) h
+
+theorem rinv_runFromR {wf : Wf} {k : Option Nat} {sorted : List NodeId} {cfg : RCfg} :
+    ∀ (sched : List (List Ev)) (s : RStep), (∀ r, s.state? = some r → RInv k r) →
+      ∀ r, (runFromR wf k sorted cfg s sched).state? = some r → RInv k r
+  | [], s, hs, r, h => by
+    cases s <;> simp only [runFromR] at h <;> exact hs r h
+  | mv :: rest, .cont rst, hs, r, h => by
+    simp only [runFromR] at h
+    exact rinv_runFromR rest _ (fun r' hr' => rinv_roundR (hs rst rfl) mv hr') r h
+  | _ :: _, .done o rst, hs, r, h => by simp only [runFromR] at h; exact hs r h
+  | _ :: _, .bad, _, r, h => by simp [runFromR, RStep.state?] at h
+
+theorem rinv_runAsyncR {wf : Wf} {k : Option Nat} {sorted : List NodeId} {cfg : RCfg} {w0 : World}
+    (sched : List (List Ev)) {r : RSt} (h : (runAsyncR wf k sorted cfg w0 sched).state? = some r) : RInv k r :=
+  rinv_runFromR sched _ (fun _ hr => rinv_pollStepR (rinv_init k w0) hr) r h
+
+theorem executingR_le {k : Nat} {rst : RSt} (hi : RInv (some k) rst) : (executingR rst).length ≤ k := by
+  have hnd : (executingR rst).Nodup := hi.beganNodup.filter _
+  have hsub : ∀ c, c ∈ executingR rst → c ∈ rst.st.futures := by
+    intro c hc
+    simp only [executingR, List.mem_filter, Bool.not_eq_true', List.contains_eq_mem, decide_eq_false_iff_not] at hc
+    exact hi.execPending c hc.1 hc.2
+  exact Nat.le_trans (hnd.length_le_of_subset hsub) (hi.f.limit k rfl)
 
 end PydraModel.Sched
